@@ -548,7 +548,19 @@ impl Walk {
             }
             "@file_edit" => {
                 if r != "ok" {
-                    self.fail(&["C01", "C18", "C10", "C11", "C03"], i, q, r, "a package kept in a file, edited through msi::open_rw and read through msi::open, does not hold what the second session left (creation time, author, rows, stream)".into());
+                    self.fail(&["C01", "C18", "C10", "C11", "C03", "C08"], i, q, r, "a package kept in a file, edited through msi::open_rw and read through msi::open, does not hold what the second session left (creation time, author, rows, stream)".into());
+                }
+                self.nontrivial.insert(q.to_string());
+            }
+            "@readonly_file_mutation" => {
+                if r != "ok" {
+                    self.fail(&["C05", "C03"], i, q, r, "a mutating call refused by the medium (package opened read-only through msi::open) returned its error but the next select shows other cells than before: the failed call changed the session's string pool".into());
+                }
+                self.nontrivial.insert(q.to_string());
+            }
+            "@ctime_now" => {
+                if r != "ok" {
+                    self.fail(&["C18", "C10"], i, q, r, "set_creation_time_to_now() did not store the moment of the call (between the clock readings before and after it, down to 100 ns)".into());
                 }
                 self.nontrivial.insert(q.to_string());
             }
@@ -765,7 +777,7 @@ impl Walk {
             let user: Vec<&String> = snap.tables.keys().filter(|n| !["_Tables", "_Columns", "_Validation"].contains(&n.as_str())).collect();
             let want: Vec<&String> = self.db.tables.keys().collect();
             if user != want {
-                self.fail(&["C03", "C04"], i, q, r, format!("tables {user:?}, relational model has {want:?}"));
+                self.fail(&["C03", "C04", "C06", "C01"], i, q, r, format!("tables {user:?}, relational model has {want:?}"));
             }
             let dbt = self.db.tables.clone();
             for (n, rt) in &dbt {
